@@ -3,7 +3,7 @@
 use crate::core::*;
 #[allow(unused_imports)]
 use crate::core::StatsExt;
-use crate::gen::{exhaustive_count, exhaustive_graph, gen_graph, GraphParams};
+use crate::gen::{exhaustive_count, exhaustive_graph, gen_graph, twins_graph, GraphParams};
 use crate::loader::*;
 use crate::model::{reachable_cycle, run_model, work_bound, Verdict};
 use crate::simfs::FsStore;
@@ -306,7 +306,12 @@ impl Prop for C02 {
             params.density_q = 0;
             stats.inc("probe:deep_chain");
         }
-        let spec = gen_graph(&params, &mut rng);
+        // every 41st run: byte-identical twin files in two directories
+        let twins = index % 41 == 9;
+        if twins {
+            stats.inc("probe:identical_twin_files");
+        }
+        let spec = if twins { twins_graph(&mut rng) } else { gen_graph(&params, &mut rng) };
         let chunk = if rng.chance(1, 3) { Chunking::draw_for_generated(&mut rng) } else { Chunking::NONE };
         // graphs whose root sits directly in its base are, every third time, compiled through the real
         // FsLoader with the root opened as `w/root.scss` (how a root is NAMED must not matter to locking)
